@@ -1023,8 +1023,10 @@ def typearg_cases(jobs):
                 return base[e["c"]]
             raise ValueError(e)
 
+        from ovld import call_next as _call_next
+
         els = w["elements"]
-        ns = {"LOG": [], "typing": typing}
+        ns = {"LOG": [], "typing": typing, "call_next": _call_next}
         objs = {}
         for n, e in enumerate(els, start=1):
             if n == 1:
@@ -1045,13 +1047,19 @@ def typearg_cases(jobs):
                 else:
                     ann = f"type[E{n}]"
                 params.append(f"p{i + 1}: {ann}")
+            if m.get("posonly"):
+                # positional-only parameters (every method of the world alike)
+                params.insert(m["posonly"], "/")
             if m["kwn"]:
                 params.append("*")
             for kn, t, req in zip(m["kwn"], m["kwt"], m["kwreq"]):
                 n = t["c"]
                 ann = "object" if n == 1 else (f"E{n}" if els[n - 1]["k"] == "inst" else f"type[E{n}]")
                 params.append(f"{kn}: {ann}" + ("" if req else " = None"))
-            src.append(f"def {m['id']}({', '.join(params)}):\n    LOG.append({m['id']!r})\n    return {m['id']!r}\n")
+            fwd = ", ".join([f"p{i + 1}" for i in range(len(m["pos"]))] + [f"{kn}={kn}" for kn in m["kwn"]])
+            body = m.get("body", "leaf")
+            ret = {"next": f"call_next({fwd})", "fnext": f"F.next({fwd})"}.get(body, repr(m["id"]))
+            src.append(f"def {m['id']}({', '.join(params)}):\n    LOG.append({m['id']!r})\n    return {ret}\n")
         code = "\n".join(src)
         fname = f"<vf:ta{job['id']}>"
         linecache.cache[fname] = (len(code), None, code.splitlines(True), fname)
@@ -1059,6 +1067,8 @@ def typearg_cases(jobs):
         ov = Ovld()
         for m in sorted(w["methods"], key=lambda m: m["reg"]):
             ov.register(ns[m["id"]], priority=m["prio"])
+        ns["F"] = ov
+        delegating = {m["id"] for m in w["methods"] if m.get("body", "leaf") in ("next", "fnext")}
         steps = []
         for call in job["calls"]:
             args = []
@@ -1085,11 +1095,14 @@ def typearg_cases(jobs):
                 obs["kind"] = classify(e)
                 obs["err"] = describe(e)
                 e.__traceback__ = None
-            obs["entered"] = [{"m": mid, "call": call, "next": {"has": False, "call": {"pos": [], "kwn": [], "kwa": []}}} for mid in ns["LOG"]]
+            # delegations forward the arguments received (keywords only when they were supplied: a defaulted None is not forwarded as a call shape)
+            obs["entered"] = [{"m": mid, "call": call,
+                               "next": {"has": mid in delegating, "call": call if mid in delegating else {"pos": [], "kwn": [], "kwa": []}}}
+                              for mid in ns["LOG"]]
             steps.append({"call": call, "obs": obs})
         for k in [k for k in linecache.cache if k.startswith("<ovld:") or k.startswith("<vf:")]:
             del linecache.cache[k]
-        out.append({"id": job["id"], "props": ["C14"], "world": w, "steps": steps})
+        out.append({"id": job["id"], "props": job.get("props", ["C14"]), "world": w, "steps": steps})
     return out
 
 
@@ -1249,7 +1262,11 @@ def _dep_call(vw, ov, methods, cspec):
         obs["err"] = describe(e)
         e.__traceback__ = None
     ent = []
-    for j, (mid, a, kws) in enumerate(vw.log):
+    slf = "ok"
+    for j, rec_ in enumerate(vw.log):
+        mid, a, kws = rec_[0], rec_[1], rec_[2]
+        if len(rec_) > 3 and rec_[3] is not vw.inst:
+            slf = "bad"
         if mid == ">next_with":
             # the body entered just before delegates with other values
             ent[-1]["next"] = {"has": True, "call": {"pos": [deprt.arg_record(n) for n in a], "kwn": [], "kwa": []}}
@@ -1261,6 +1278,7 @@ def _dep_call(vw, ov, methods, cspec):
         ent.append({"m": mid, "call": c, "next": {"has": nxt, "call": c if nxt else {"pos": [], "kwn": [], "kwa": []}}})
     obs["entered"] = ent
     obs["predlog"] = list(vw.predlog)
+    obs["slf"] = slf
     return call, obs
 
 
@@ -1308,7 +1326,7 @@ def dep_cases(jobs):
     for job in jobs:
         vw = deprt.ValueWorld()
         try:
-            ov = vw.build(job["methods"])
+            ov = vw.build(job["methods"], host=job.get("host", False))
         except Exception as e:
             out.append({"id": job["id"], "skip": f"{type(e).__name__}: {e}"})
             continue
